@@ -98,4 +98,45 @@ PROPS["C06"] = dict(
     trusted=["tk.Wire in-memory stream with segmentation"],
 )
 
+PROPS["C02"] = dict(
+    technique="Coq theorems over the client's authentication decision function (every completed handshake implies each oracle check) + correspondence: a puppet server written independently of the library plays the impostor catalogue; chain/name/signature verdicts recomputed by the harness with smx509/sm2",
+    level_text="Theorems (completion implies two parsed certificates, both chains when verification is on, a present and valid key-exchange signature over this handshake's "
+               "randoms and parameters, a correct Finished; still the two proofs of possession with verification off; re-validation on resumption) proved in Coq; every impostor "
+               "of the catalogue x 4 suites x verification on/off x both stacks is played against the real client and the model's verdict, computed from independently "
+               "obtained oracle answers, must equal the client's.",
+    level_note="Trusted: Coq kernel + vm_compute; X.509 chain building / host-name matching and SM2 verification are oracles (smx509, sm2 called by the harness with the options "
+               "the property prescribes); the puppet peer (harness/internal/puppet) and its own PRF / record protection; unforgeability of SM2 signatures and of the Finished PRF is "
+               "what turns 'the check was evaluated and true' into 'the peer holds the keys'.",
+    code_names={1: "completed-with-fewer-than-two-certificates", 2: "completed-without-chain-validity-name-verification", 3: "completed-without-signed-key-exchange",
+                4: "completed-with-signature-not-valid-for-this-handshake", 5: "completed-with-wrong-Finished", 6: "refused-but-completion-reported-or-data-delivered",
+                7: "resumed-session-whose-certificates-fail-now"},
+    assumptions=["SM2 signatures and the PRF-based Finished cannot be produced without the private key / master secret"],
+    trusted=["harness/internal/puppet (independent TLCP/DTLCP peer over gmsm primitives)", "smx509.Verify / sm2.VerifyASN1WithSM2 as oracles"],
+)
+
+PROPS["C07"] = dict(
+    technique="Coq theorems over the server's client-authentication decision function against a declarative policy table + correspondence: a puppet client plays every behaviour under the six policies, full and resumed across configurations sharing a cache",
+    level_text="Theorems (completion implies the policy table, both certificates for ECDHE, CertificateVerify valid whenever a certificate was sent; reported peer certificates imply "
+               "the proof of possession, reported verified chains imply verification; a session is resumed only under a policy it satisfies) proved in Coq; 6 policies x behaviours x "
+               "ECC/ECDHE x full/resumed x both stacks are played against the real server and compared with the model on independently computed oracle answers.",
+    level_note="Trusted: Coq kernel + vm_compute; X.509 verification and SM2 verification are oracles computed by the harness; the puppet peer.",
+    code_names={1: "completed-although-policy-not-satisfied", 2: "certificate-accepted-without-proof-of-possession", 3: "peer-certificates-reported-without-proof",
+                4: "verified-chains-reported-without-verification", 5: "completed-with-wrong-Finished", 6: "resumed-under-a-policy-the-session-does-not-satisfy"},
+    assumptions=["SM2 signatures cannot be produced without the private key"],
+    trusted=["harness/internal/puppet", "smx509.Verify / sm2.VerifyASN1WithSM2 as oracles"],
+)
+
+PROPS["C01"] = dict(
+    technique="Coq theorems on an executable model of the negotiation (offer, server choice, ALPN, versions, client-auth policy) against a declarative compatibility predicate + correspondence on real client/server pairs of both stacks",
+    level_text="Theorems for every pair of configurations (suite = first common in the documented priority order; success iff compatible; ALPN specification; offer soundness) proved in Coq; "
+               "generated configuration pairs (direct or cloned) are run as real handshakes of both stacks with data exchanged both ways, and the model as well as the declarative "
+               "predicate are evaluated on the observed results of both sides (success/failure on both, suite, ALPN, version, resumption flag, peer certificates each side reports).",
+    level_note="Trusted: Coq kernel + vm_compute; X.509 verdicts (server chain under the client's roots/name, client chain under the policy's options, issuer acceptability) are oracle inputs "
+               "computed by the harness; Clone is checked by running through it (a dropped field shows as a disagreement).",
+    code_names={1: "one-side-succeeded-other-failed", 2: "success-differs-from-compatibility", 3: "suite-not-first-common-in-priority-order", 4: "sides-report-different-parameters",
+                5: "peer-certificates-not-what-the-other-presented", 6: "data-not-delivered-unchanged", 7: "alpn-not-per-specification"},
+    assumptions=["reliable transport; both endpoints unmodified"],
+    trusted=["smx509.Verify as oracle", "tk in-memory transports / virtual-time network"],
+)
+
 NOT_YET = {}
